@@ -117,6 +117,40 @@ func serveStatsRun(f []string) (string, string) {
 		if len(w.msgs) == 1 && strings.HasPrefix(res, "rc=") && !strings.HasPrefix(res, "rc=2,") && len(lg.logged) != 1 {
 			verdict = fmt.Sprintf("FAIL:composed-reply-logged-%d-times", len(lg.logged))
 		}
+		// the statement, read off the increments directly: the query counter and the counter of the
+		// query's type exactly once each; outcome counters as the response sent dictates
+		count := func(name string) int {
+			n := 0
+			for _, c := range cs {
+				if c == name {
+					n++
+				}
+			}
+			return n
+		}
+		ntype, own := 0, fmt.Sprintf("T%d", q.qtype)
+		for _, c := range cs {
+			if len(c) > 1 && c[0] == 'T' && c[1] >= '0' && c[1] <= '9' {
+				ntype++
+			}
+		}
+		if res != "panic" {
+			if n := count("DNS_queries"); n != 1 {
+				verdict = fmt.Sprintf("FAIL:query-counter-incremented-%d-times", n)
+			}
+			if ntype != 1 || count(own) != 1 {
+				verdict = fmt.Sprintf("FAIL:type-counter-%s-incremented-%d-times(%d type counters)", own, count(own), ntype)
+			}
+			for rc, name := range map[string]string{"rc=3,": "DNS_queries_nxdomain", "rc=5,": "DNS_queries_refused", "rc=16,": "DNS_queries_badvers"} {
+				want := 0
+				if strings.HasPrefix(res, rc) {
+					want = 1
+				}
+				if n := count(name); n != want {
+					verdict = fmt.Sprintf("FAIL:%s-incremented-%d-times-for-%s", name, n, res[:5])
+				}
+			}
+		}
 		out = append(out, fmt.Sprintf("%s@%s@log=%d,failed=%d,match=%d", res, strings.Join(cs, ","), len(lg.logged), lg.failed, logmatch))
 	}
 	return "cdb:" + strings.Join(out, "~"), verdict
